@@ -360,18 +360,23 @@ var (
 )
 
 // getter wraps the embedder's module map: it is the ModuleGetter handed to the
-// script. It counts resolver calls; a compilation that calls it more often than
-// getLimit cannot be a terminating one for the tiny graphs enumerated here
-// (every module is compiled at most once per import path; the largest acyclic
-// graph below the bound has < 40 import paths), so the compile is aborted and
-// classified as non-terminating instead of letting the Go stack overflow
-// (which would be an unrecoverable process crash).
+// script. It counts resolver calls. Every import expression that is compiled
+// asks the resolver once and the first cyclic import aborts the compilation, so
+// a compiler that checks cycles correctly asks at most once per simple import
+// path from main plus once for the failing import, even if it caches nothing:
+// <= 31 below the bound (n=4, out-degree <= 2: 2+4+8+16 paths; n=3: 15), and at
+// most once per reachable edge (<= 12) when it caches. More than getLimit calls
+// therefore means the compiler is walking around a cycle; the compile is aborted
+// and classified as non-terminating instead of letting the Go stack overflow
+// (an unrecoverable process crash). The limit is kept tight because nested
+// module compiles get quadratically slower with depth (the builtin symbol list
+// of the symbol table grows with every level).
 type getter struct {
 	m     *tengo.ModuleMap
 	calls int
 }
 
-const getLimit = 300
+const getLimit = 32
 
 func (g *getter) Get(name string) tengo.Importable {
 	g.calls++
